@@ -114,9 +114,12 @@ func (fr *frame) get(key ssa.Value) value {
 		if r, ok := fr.in.globals[key]; ok {
 			return r
 		}
-		// a global of a package whose init was not executed: fine if its init never touches it
-		if key.Pkg != nil && fr.in.P.initRefs(key.Pkg)[key] && !strings.HasSuffix(key.Name(), "init$guard") {
-			panic(unsupported{"global " + key.String() + " is set by its package initializer: add " + key.Pkg.Pkg.Path() + " to spec.init"})
+		// a global of a package whose init has not run yet: run it now (lazily, once per path)
+		if key.Pkg != nil && !strings.HasSuffix(key.Name(), "init$guard") && !zeroInitOK[key.Pkg.Pkg.Path()] {
+			fr.in.lazyInit(key.Pkg)
+			if r, ok := fr.in.globals[key]; ok {
+				return r
+			}
 		}
 		cell := zero(deref(key.Type()))
 		fr.in.globals[key] = &cell
@@ -870,6 +873,9 @@ func (in *Interp) callBuiltin(caller *frame, fn *ssa.Builtin, args []value) valu
 		return recv
 	case "ssa:deferstack":
 		return &caller.defers
+	}
+	if v, ok := in.callUnsafeBuiltin(fn, args); ok {
+		return v
 	}
 	panic(unsupported{"builtin " + fn.Name()})
 }
